@@ -2,8 +2,9 @@
    Only ExtrOcamlBasic is used: nat, positive, N, Z stay the extracted inductives. *)
 Require Extraction.
 Require Import ExtrOcamlBasic.
-From LogV Require Import Base.Bytes Base.Utf8 Base.JsonStr Model.Tag Model.Escape.
+From LogV Require Import Base.Bytes Base.Utf8 Base.JsonStr Model.Tag Model.Escape Model.Retention.
 Extraction Language OCaml.
 Extraction "model.ml" Z.add Z.mul Z.opp Z.of_N Z.to_N N.add N.of_nat N.to_nat
   is_valid_tag build_tag register_tag all_tags
-  bytes_eqb escape sanitize unescape.
+  bytes_eqb escape sanitize unescape
+  clear_expired.
